@@ -81,6 +81,36 @@ func vfOpsString(ops []vfOp) string {
 	return strings.Join(parts, "; ")
 }
 
+// vfScribbleFlat overwrites a numeric slice that has been handed to Write.
+func vfScribbleFlat(v interface{}) {
+	switch x := v.(type) {
+	case []int32:
+		for i := range x {
+			x[i] = 0x5A5A5A5A
+		}
+	case []int64:
+		for i := range x {
+			x[i] = 0x5A5A5A5A5A5A5A5A
+		}
+	case []uint8:
+		for i := range x {
+			x[i] = 0x5A
+		}
+	case []uint32:
+		for i := range x {
+			x[i] = 0x5A5A5A5A
+		}
+	case []float32:
+		for i := range x {
+			x[i] = -90.5
+		}
+	case []float64:
+		for i := range x {
+			x[i] = -90.5
+		}
+	}
+}
+
 // attribute values by kind name
 func vfAttrValue(kind string) interface{} {
 	switch kind {
@@ -358,7 +388,12 @@ func (w *vfWorld) Apply(o vfOp) (err error, panicked bool) {
 			return fmt.Errorf("harness: no dataset handle %q", o.Path), false
 		}
 		t := vfTypes[w.DSType[o.Path]]
-		return ds.Write(t.Make(vfProd(w.DSDims[o.Path]), o.Pat)), false
+		data := t.Make(vfProd(w.DSDims[o.Path]), o.Pat)
+		err := ds.Write(data)
+		// the buffer is the caller's again: what reaches the file (now or at Close) must not
+		// depend on it any more
+		vfScribbleFlat(data)
+		return err, false
 	case "attr":
 		if ds := w.DS[o.Path]; ds != nil {
 			return ds.WriteAttribute(o.Name, vfAttrValue(o.Value)), false
